@@ -92,8 +92,10 @@ def gen_requests(rng, n_per_codec, codecs=(RS28, RS2M, LDPC), big=False):
                 around = k + rng.choice([-2, -1, 0, 0, 1, 1, 2, 3, 4, r // 2, r])
             esis = rand_esis(rng, k, n, around)
             api = rng.below(2)
-            if api == 1:
-                esis = sorted(set(esis))
+            if rng.chance(1, 10):
+                api = 3          # the table API called twice with cumulative tables
+            if api in (1, 3):
+                esis = sorted(set(esis)) if api == 1 else list(dict.fromkeys(esis))
             reqs.append(Req(codec, k, r, L, p1, p2, api, rng.below(4), rng.choice([0, 1, 1]), rng.choice([2, 2, 2, 3, 4, 5] if codec in (RS28, RS2M) else [2, 2, 2, 3, 4]),
                             esis, pseed=rng.below(10 ** 9)))
     return reqs
@@ -129,10 +131,14 @@ def oracles(q, a):
             if e not in recv:
                 recv.append(e)
         else:
-            for e in q.esis:
-                if e < k and prev_mask[e] == "0":
-                    src_first_unknown.add(e)
-            recv = sorted(set(q.esis))
+            cur = q.esis[:len(q.esis) // 2] if (q.api == 3 and j == 0) else q.esis      # api 3: two cumulative tables
+            # LDPC/2D walk the table in increasing ESI order and decode on the way: in a SECOND table call, repair symbols are already
+            # known, so a source of the table may be rebuilt before the walk reaches it - which ones cannot be told from outside
+            if not (q.api == 3 and j >= 1 and q.codec in (LDPC, P2D)):
+                for e in cur:
+                    if e < k and prev_mask[e] == "0":
+                        src_first_unknown.add(e)
+            recv = sorted(set(cur))
         if st != 0:
             out.append(("C10", "submit-status", "submission call %d returned status %d" % (j, st)))
         if "!" in sm:
